@@ -199,7 +199,7 @@ theorem applyAll_append (env : Env) (us vs : List Update) (db : Refdb) :
 /-- The special names are distinct and under `refs/rad`; a sigrefs blob lists every name once (it is a
 `BTreeMap`). -/
 structure EnvWf (env : Env) : Prop where
-  id_lt_sig : env.nId < env.nSig
+  id_ne_sig : env.nId ≠ env.nSig
   rad_sig : env.isRad env.nSig = true
   rad_id : env.isRad env.nId = true
   blob_nodup : ∀ k t b, env.blob k t = some b → (b.refs.map (·.1)).Nodup
@@ -378,118 +378,6 @@ theorem memFold_isSome (us : List Update) (m : Refdb) {r : Ref} (hs : (m.get r).
     · intro k n hm
       exact h k n (List.mem_cons_of_mem _ hm)
 
-/-! ### Shape of the special references of one remote -/
-
-/-- Order of reference names within and across namespaces. -/
-def refLt (a b : Ref) : Prop := a.1 < b.1 ∨ (a.1 = b.1 ∧ a.2 < b.2)
-
-/-- The special references queued for update: sorted by `(remote, name)` — so every reference occurs
-once, and a remote's `rad/id` comes before its `rad/sigrefs`, as `git upload-pack` lists them — and
-special. -/
-structure SpWf (env : Env) (sp : Refdb) : Prop where
-  sorted : sp.Pairwise (fun a b => refLt a.1 b.1)
-  special : ∀ e ∈ sp, e.1.2 = env.nId ∨ e.1.2 = env.nSig
-
-/-- The special references of one remote: none, `rad/id`, `rad/sigrefs`, or `rad/id` then `rad/sigrefs`. -/
-def SpShape (env : Env) (S : List (Name × Oid)) : Prop :=
-  S = [] ∨ (∃ x, S = [(env.nId, x)]) ∨ (∃ t, S = [(env.nSig, t)]) ∨
-    (∃ x t, S = [(env.nId, x), (env.nSig, t)])
-
-theorem refsOf_sorted {sp : Refdb} (h : sp.Pairwise (fun a b => refLt a.1 b.1)) (k : Key) :
-    (sp.refsOf k).Pairwise (fun a b => a.1 < b.1) := by
-  unfold Refdb.refsOf
-  apply List.Pairwise.filterMap _ _ h
-  intro a a' hlt b hb b' hb'
-  by_cases h1 : a.1.1 = k
-  · by_cases h2 : a'.1.1 = k
-    · simp [h1] at hb; simp [h2] at hb'
-      subst hb; subst hb'
-      rcases hlt with h3 | ⟨_, h3⟩
-      · rw [h1, h2] at h3; exact absurd h3 (Nat.lt_irrefl _)
-      · exact h3
-    · simp [h2] at hb'
-  · simp [h1] at hb
-
-theorem spShape_of_wf {env : Env} (hw : EnvWf env) {sp : Refdb} (h : SpWf env sp) (k : Key) :
-    SpShape env (sp.refsOf k) := by
-  have hs := refsOf_sorted h.sorted k
-  have hsp : ∀ e ∈ sp.refsOf k, e.1 = env.nId ∨ e.1 = env.nSig := by
-    intro e he
-    exact h.special ((k, e.1), e.2) (Refdb.mem_refsOf.mp he)
-  have hlt := hw.id_lt_sig
-  generalize sp.refsOf k = S at hs hsp
-  unfold SpShape
-  match S, hs, hsp with
-  | [], _, _ => left; rfl
-  | [(n, o)], _, hsp =>
-    rcases hsp (n, o) (List.mem_cons_self ..) with h1 | h1
-    · right; left; exact ⟨o, by simp at h1; rw [h1]⟩
-    · right; right; left; exact ⟨o, by simp at h1; rw [h1]⟩
-  | (n, o) :: (n', o') :: rest, hs, hsp =>
-    right; right; right
-    have h1 := hsp (n, o) (by simp)
-    have h2 := hsp (n', o') (by simp)
-    simp only [List.pairwise_cons] at hs
-    have hlt1 : n < n' := hs.1 (n', o') (by simp)
-    simp only at h1 h2
-    have hlt' : (env.nId : Nat) < env.nSig := hlt
-    have hn : n = env.nId := by
-      rcases h1 with h1 | h1
-      · exact h1
-      · rcases h2 with h2 | h2
-        · subst h1; subst h2; exact absurd hlt1 (Nat.lt_asymm hlt')
-        · subst h1; subst h2; exact absurd hlt1 (Nat.lt_irrefl _)
-    have hn' : n' = env.nSig := by
-      rcases h2 with h2 | h2
-      · subst hn; subst h2; exact absurd hlt1 (Nat.lt_irrefl _)
-      · exact h2
-    subst hn; subst hn'
-    cases rest with
-    | nil => exact ⟨o, o', rfl⟩
-    | cons e rest =>
-      have h3 := hsp e (by simp)
-      have hlt2 : env.nSig < e.1 := hs.2.1 e (by simp)
-      rcases h3 with h3 | h3
-      · rw [h3] at hlt2; exact absurd hlt2 (Nat.lt_asymm hlt')
-      · rw [h3] at hlt2; exact absurd hlt2 (Nat.lt_irrefl _)
-
-/-- `sp.get (k, rad/sigrefs)` is the sigrefs entry of the remote's special references. -/
-theorem sp_get_sig {env : Env} (hw : EnvWf env) {sp : Refdb} (k : Key) (hsh : SpShape env (sp.refsOf k)) :
-    (sp.get (k, env.nSig) = none ∧ (sp.refsOf k = [] ∨ ∃ x, sp.refsOf k = [(env.nId, x)])) ∨
-    (∃ t, sp.get (k, env.nSig) = some t ∧
-      (sp.refsOf k = [(env.nSig, t)] ∨ ∃ x, sp.refsOf k = [(env.nId, x), (env.nSig, t)])) := by
-  have hne : env.nId ≠ env.nSig := Nat.ne_of_lt hw.id_lt_sig
-  have key : ∀ t, sp.get (k, env.nSig) = some t → (env.nSig, t) ∈ sp.refsOf k :=
-    fun t ht => Refdb.mem_refsOf.mpr (Refdb.mem_of_get ht)
-  have key2 : ∀ t, (env.nSig, t) ∈ sp.refsOf k → ∃ t', sp.get (k, env.nSig) = some t' :=
-    fun t ht => Option.isSome_iff_exists.mp (Refdb.get_isSome_of_mem (Refdb.mem_refsOf.mp ht))
-  rcases hsh with h | ⟨x, h⟩ | ⟨t, h⟩ | ⟨x, t, h⟩
-  · left
-    refine ⟨?_, Or.inl h⟩
-    cases hg : sp.get (k, env.nSig) with
-    | none => rfl
-    | some t => have := key t hg; rw [h] at this; simp at this
-  · left
-    refine ⟨?_, Or.inr ⟨x, h⟩⟩
-    cases hg : sp.get (k, env.nSig) with
-    | none => rfl
-    | some t =>
-      have := key t hg; rw [h] at this
-      simp at this; exact absurd this.1.symm hne
-  · right
-    obtain ⟨t', ht'⟩ := key2 t (by rw [h]; simp)
-    have := key t' ht'; rw [h] at this
-    simp at this; subst this
-    exact ⟨t', ht', Or.inl h⟩
-  · right
-    obtain ⟨t', ht'⟩ := key2 t (by rw [h]; simp)
-    have := key t' ht'; rw [h] at this
-    simp at this
-    rcases this with ⟨h1, _⟩ | h1
-    · exact absurd h1.symm hne
-    · subst h1; exact ⟨t', ht', Or.inr ⟨x, h⟩⟩
-
-
 /-! ### What a `validated` verdict means -/
 
 theorem loadAt_ok {env : Env} {k : Key} {t t' : Oid} {b : Blob} (h : loadAt env k t = .ok (t', b)) :
@@ -635,66 +523,73 @@ theorem data_not_sig {env : Env} (hw : EnvWf env) {L : Refdb} {k : Key} {b : Blo
     have := (mem_pruneNames.mp hn).2.1
     rw [h2, hw.rad_sig] at this; cases this
 
+theorem specialUpdateOf_ref {delegates : List Key} {sp : Refdb} {k : Key} {n : Name} :
+    ∀ u ∈ specialUpdateOf delegates sp k n, u.ref = (k, n) := by
+  intro u hu
+  unfold specialUpdateOf at hu
+  split at hu
+  · simp at hu; subst hu; rfl
+  · simp at hu
+
 /-- What a validated remote looks like: its `rad/sigrefs` was offered at `tip`, whose verified content is
 `b`; `b` does not list `rad/sigrefs`; an offered `rad/id` is listed in `b`. -/
-theorem validated_facts {env : Env} (hw : EnvWf env) {L sp : Refdb} (hsp : SpWf env sp)
+theorem validated_facts {env : Env} (hw : EnvWf env) {L sp : Refdb}
     {blocked delegates : List Key} {k : Key} {tip : Oid} {b : Blob}
     (hload : cachedLoad env L sp k = .ok (some (tip, b)))
     (hv : verdictOf env L sp blocked delegates k tip b = .validated) :
     env.blob k tip = some b ∧ b.valid = true ∧ (∀ e ∈ b.refs, e.1 ≠ env.nSig) ∧
-    (sp.refsOf k = [(env.nSig, tip)] ∨
-      ∃ x, sp.refsOf k = [(env.nId, x), (env.nSig, tip)] ∧ b.lookup env.nId ≠ none) := by
+    sp.get (k, env.nSig) = some tip ∧ (∀ x, sp.get (k, env.nId) = some x → b.lookup env.nId ≠ none) := by
   obtain ⟨hblob, hvalid, hsrc⟩ := cachedLoad_ok hload
   obtain ⟨_, _, hval⟩ := verdict_validated hv
   obtain ⟨⟨o, hsig⟩, hb, hc⟩ := validateRemote_true hval
-  have hne : env.nId ≠ env.nSig := Nat.ne_of_lt hw.id_lt_sig
-  refine ⟨hblob, hvalid, hc, ?_⟩
+  have hne : env.nId ≠ env.nSig := hw.id_ne_sig
   have hdata := data_not_sig hw (L := L) (k := k) hc
-  rcases sp_get_sig hw k (spShape_of_wf hw hsp k) with ⟨hnone, hS⟩ | ⟨t, ht, hS⟩
-  · -- no sigrefs among the special refs: the in-memory refdb has none either
-    exfalso
-    have : (memOf env L sp delegates k b).get (k, env.nSig) = none := by
-      unfold memOf blockOf specialUpdatesOf
-      rw [memFold_frame]
-      · rfl
-      · intro u hu
-        rcases List.mem_append.mp hu with h | h
-        · rcases hS with hS | ⟨x, hS⟩
-          · rw [hS] at h; simp at h
-          · rw [hS] at h; simp at h; subst h
-            intro heq; simp only [Update.ref] at heq; injection heq with _ h2; exact hne h2
-        · exact hdata u h
-    rw [this] at hsig; cases hsig
-  · have htip : t = tip := by
-      rcases hsrc with h | ⟨h, _⟩
-      · rw [ht] at h; injection h
-      · rw [ht] at h; cases h
-    subst htip
-    rcases hS with hS | ⟨x, hS⟩
-    · exact Or.inl hS
-    · right
-      refine ⟨x, hS, ?_⟩
-      have hsome : ((memOf env L sp delegates k b).get (k, env.nId)).isSome := by
+  refine ⟨hblob, hvalid, hc, ?_, ?_⟩
+  · rcases hsrc with h | ⟨hnone, _⟩
+    · exact h
+    · -- no sigrefs among the special refs: the in-memory refdb has none either
+      exfalso
+      have : (memOf env L sp delegates k b).get (k, env.nSig) = none := by
         unfold memOf blockOf specialUpdatesOf
-        rw [hS]
-        simp only [List.map_cons, List.map_nil, List.cons_append, List.nil_append, List.foldl_cons]
-        apply memFold_isSome
-        · rw [memApply_frame _ _ (by simp only [Update.ref]; intro heq; injection heq with _ h2; exact hne h2.symm)]
-          simp [memApply, Refdb.get_set_same]
-        · intro k' n' hm heq
-          injection heq with h1 h2
-          unfold dataUpdatesOf at hm
-          rcases List.mem_append.mp hm with h | h
+        rw [memFold_frame]
+        · rfl
+        · intro u hu
+          rcases List.mem_append.mp hu with h | h
+          · rcases List.mem_append.mp h with h | h
+            · rw [specialUpdateOf_ref u h]
+              intro heq; injection heq with _ h2; exact hne h2
+            · unfold specialUpdateOf at h; rw [hnone] at h; simp at h
+          · exact hdata u h
+      rw [this] at hsig; cases hsig
+  · intro x hx
+    have hsome : ((memOf env L sp delegates k b).get (k, env.nId)).isSome := by
+      unfold memOf blockOf specialUpdatesOf
+      have hsp1 : specialUpdateOf delegates sp k env.nId =
+          [Update.direct k env.nId x (specialPolicy delegates k)] := by
+        unfold specialUpdateOf; rw [hx]
+      rw [hsp1]
+      simp only [List.cons_append, List.nil_append, List.foldl_cons]
+      apply memFold_isSome
+      · simp [memApply, Refdb.get_set_same]
+      · intro k' n' hm heq
+        injection heq with h1 h2
+        rcases List.mem_append.mp hm with h | h
+        · have := specialUpdateOf_ref _ h
+          unfold specialUpdateOf at h
+          split at h
+          · simp at h
+          · simp at h
+        · unfold dataUpdatesOf at h
+          rcases List.mem_append.mp h with h | h
           · obtain ⟨e, _, he⟩ := List.mem_map.mp h; cases he
           · obtain ⟨n, hn, he⟩ := List.mem_map.mp h
             injection he with _ h3
             have := (mem_pruneNames.mp hn).2.1
             rw [h3, h2, hw.rad_id] at this; cases this
-      obtain ⟨y, hy⟩ := Option.isSome_iff_exists.mp hsome
-      rcases hb env.nId y hy with h | h
-      · exact absurd h hne
-      · rw [h]; simp
-
+    obtain ⟨y, hy⟩ := Option.isSome_iff_exists.mp hsome
+    rcases hb env.nId y hy with h | h
+    · exact absurd h hne
+    · rw [h]; simp
 
 /-! ### Applying the tips of one validated remote -/
 
@@ -744,7 +639,7 @@ theorem finish_block (env : Env) (hw : EnvWf env) (hanc : AncWf env) {L : Refdb}
       (ancestry env cur tip = some .equal ∨ ancestry env cur tip = some .ahead)) (p : Policy) :
     ∃ db', applyAll env dba (Update.direct k env.nSig tip p :: dataUpdatesOf env L k b) = .ok db' ∧
       Matches env L db' k ∧ ∀ k' n, k' ≠ k → db'.get (k', n) = db.get (k', n) := by
-  have hne : env.nId ≠ env.nSig := Nat.ne_of_lt hw.id_lt_sig
+  have hne : env.nId ≠ env.nSig := hw.id_ne_sig
   have hsigeq : dba.get (k, env.nSig) = L.get (k, env.nSig) := by
     rw [ha env.nSig (fun h => hne h.symm), hns]
   obtain ⟨db1, h1, hg1, hf1⟩ := apply_sig env hanc dba k tip p (by rw [hsigeq]; exact hpre)
@@ -782,7 +677,7 @@ theorem finish_block (env : Env) (hw : EnvWf env) (hanc : AncWf env) {L : Refdb}
 
 /-- The tips of a validated remote either abort at their first update (a diverged `rad/id` of a delegate),
 leaving everything as it was, or apply completely, after which the namespace matches its signed refs. -/
-theorem block_apply (env : Env) (hw : EnvWf env) (hanc : AncWf env) {L sp : Refdb} (hsp : SpWf env sp)
+theorem block_apply (env : Env) (hw : EnvWf env) (hanc : AncWf env) {L sp : Refdb}
     {blocked delegates : List Key} {k : Key} {tip : Oid} {b : Blob}
     (hload : cachedLoad env L sp k = .ok (some (tip, b)))
     (hv : verdictOf env L sp blocked delegates k tip b = .validated)
@@ -790,18 +685,27 @@ theorem block_apply (env : Env) (hw : EnvWf env) (hanc : AncWf env) {L sp : Refd
     (∃ db', applyAll env db (blockOf env L sp delegates k b) = .ok db' ∧ Matches env L db' k ∧
         ∀ k' n, k' ≠ k → db'.get (k', n) = db.get (k', n)) ∨
     applyAll env db (blockOf env L sp delegates k b) = .err db := by
-  obtain ⟨hblob, hvalid, hc, hS⟩ := validated_facts hw hsp hload hv
+  obtain ⟨hblob, hvalid, hc, hsig, hid⟩ := validated_facts hw hload hv
   obtain ⟨_, hpre, _⟩ := verdict_validated hv
-  have hne : env.nId ≠ env.nSig := Nat.ne_of_lt hw.id_lt_sig
+  have hne : env.nId ≠ env.nSig := hw.id_ne_sig
+  have hsp2 : specialUpdateOf delegates sp k env.nSig =
+      [Update.direct k env.nSig tip (specialPolicy delegates k)] := by
+    unfold specialUpdateOf; rw [hsig]
   unfold blockOf specialUpdatesOf
-  rcases hS with hS | ⟨x, hS, hidl⟩
-  · left
-    rw [hS]
-    simp only [List.map_cons, List.map_nil, List.cons_append, List.nil_append]
+  rw [hsp2]
+  cases hx : sp.get (k, env.nId) with
+  | none =>
+    left
+    have hsp1 : specialUpdateOf delegates sp k env.nId = [] := by unfold specialUpdateOf; rw [hx]
+    rw [hsp1]
+    simp only [List.cons_append, List.nil_append]
     exact finish_block env hw hanc hblob hvalid hc db db hns (fun _ _ => rfl) (Or.inl rfl)
       (fun _ _ _ => rfl) hpre _
-  · rw [hS]
-    simp only [List.map_cons, List.map_nil, List.cons_append, List.nil_append]
+  | some x =>
+    have hsp1 : specialUpdateOf delegates sp k env.nId =
+        [Update.direct k env.nId x (specialPolicy delegates k)] := by unfold specialUpdateOf; rw [hx]
+    rw [hsp1]
+    simp only [List.cons_append, List.nil_append]
     rw [applyAll, applyOne_direct]
     cases directAct env (db.get (k, env.nId)) x (specialPolicy delegates k) with
     | fail => right; rfl
@@ -815,7 +719,7 @@ theorem block_apply (env : Env) (hw : EnvWf env) (hanc : AncWf env) {L sp : Refd
       apply finish_block env hw hanc hblob hvalid hc db (db.set (k, env.nId) x) hns
       · intro n hn
         exact Refdb.get_set_ne db x (fun heq => hn (by injection heq))
-      · exact Or.inr hidl
+      · exact Or.inr (hid x hx)
       · intro k' n hk
         exact Refdb.get_set_ne db x (fun heq => hk (by injection heq))
       · exact hpre
@@ -826,11 +730,10 @@ theorem blockOf_ref {env : Env} {L sp : Refdb} {delegates : List Key} {k : Key} 
   intro u hu
   unfold blockOf specialUpdatesOf dataUpdatesOf at hu
   rcases List.mem_append.mp hu with h | h
-  · obtain ⟨e, _, rfl⟩ := List.mem_map.mp h; rfl
+  · rcases List.mem_append.mp h with h | h <;> (rw [specialUpdateOf_ref u h])
   · rcases List.mem_append.mp h with h | h
     · obtain ⟨e, _, rfl⟩ := List.mem_map.mp h; rfl
     · obtain ⟨e, _, rfl⟩ := List.mem_map.mp h; rfl
-
 
 /-! ### Sorted maps, `RemoteRefs::load`, the validation loop -/
 
@@ -953,7 +856,7 @@ theorem final_frame (env : Env) {L sp : Refdb} {delegates : List Key} (vs : Sign
 
 /-- After the tips of the validated remotes were applied — completely, or up to an abort — every namespace
 is either as it was or matches its signed refs. -/
-theorem apply_final (env : Env) (hw : EnvWf env) (hanc : AncWf env) {L sp : Refdb} (hsp : SpWf env sp)
+theorem apply_final (env : Env) (hw : EnvWf env) (hanc : AncWf env) {L sp : Refdb}
     {blocked delegates : List Key} (vs : SignedRefs) (hsorted : vs.Pairwise (fun a b => a.1 < b.1))
     (hvs : ∀ e ∈ vs, cachedLoad env L sp e.1 = .ok (some e.2) ∧
       verdictOf env L sp blocked delegates e.1 e.2.1 e.2.2 = .validated)
@@ -967,7 +870,7 @@ theorem apply_final (env : Env) (hw : EnvWf env) (hanc : AncWf env) {L sp : Refd
     rw [List.pairwise_cons] at hsorted
     obtain ⟨hload, hv⟩ := hvs (k0, tip, b) (List.mem_cons_self ..)
     rw [finalUpdates_cons, applyAll_append]
-    rcases block_apply env hw hanc hsp hload hv db (hunch (k0, tip, b) (List.mem_cons_self ..)) with
+    rcases block_apply env hw hanc hload hv db (hunch (k0, tip, b) (List.mem_cons_self ..)) with
       ⟨db', hok, hm, hfr⟩ | herr
     · simp only [hok]
       apply ih hsorted.2 (fun e he => hvs e (List.mem_cons_of_mem _ he)) db'
@@ -984,55 +887,6 @@ theorem apply_final (env : Env) (hw : EnvWf env) (hanc : AncWf env) {L sp : Refd
     · simp only [herr, Applied.db]
       exact hinv
 
-
-/-! ### The special-refs stage produces well-formed special references -/
-
-theorem dedupRefsAt_sorted (ras : List (Key × Oid)) : (dedupRefsAt ras).Pairwise (fun a b => a.1 < b.1) := by
-  unfold dedupRefsAt
-  suffices h : ∀ (acc : List (Key × Oid)), acc.Pairwise (fun a b => a.1 < b.1) →
-      (ras.foldl (fun m r => insertKey r.1 r.2 m) acc).Pairwise (fun a b => a.1 < b.1) from
-    h [] List.Pairwise.nil
-  induction ras with
-  | nil => intro acc h; exact h
-  | cons r ras ih => intro acc h; exact ih _ (insertKey_sorted r.1 r.2 h)
-
-/-- The advertisement lists every reference once, sorted by `(remote, name)` (`git upload-pack` lists
-references in name order, so a remote's `rad/id` before its `rad/sigrefs`). -/
-def AdvSorted (A : Refdb) : Prop := A.Pairwise (fun a b => refLt a.1 b.1)
-
-theorem specialStage_wf (env : Env) (cfg : Config) (blocked delegates : List Key) (threshold : Nat)
-    (A : Refdb) (hA : cfg.refsAt = none → AdvSorted A) {stage : Stage}
-    (h : specialStage env cfg blocked delegates threshold A = .ok stage) : SpWf env stage.sp := by
-  unfold specialStage at h
-  split at h
-  · rename_i hr
-    simp only at h
-    split at h
-    · injection h with h; subst h
-      simp only
-      have hA := hA hr
-      constructor
-      · unfold specialReceived
-        apply List.Pairwise.filter
-        split
-        · exact hA
-        · exact List.Pairwise.filter _ hA
-      · intro e he
-        unfold specialReceived at he
-        have := (List.mem_filter.mp he).2
-        simp only [Bool.and_eq_true, isSpecial, Bool.or_eq_true, beq_iff_eq] at this
-        exact this.2
-    · cases h
-  · injection h with h; subst h
-    simp only
-    constructor
-    · rw [List.pairwise_map]
-      apply List.Pairwise.imp _ (dedupRefsAt_sorted _)
-      intro a b hab
-      exact Or.inl hab
-    · intro e he
-      obtain ⟨r, _, rfl⟩ := List.mem_map.mp he
-      exact Or.inr rfl
 
 /-! ### Decomposition of a fetch -/
 
@@ -1154,14 +1008,14 @@ theorem finalUpdates_not_ns (env : Env) {L sp : Refdb} {delegates : List Key} (v
 
 /-- `rad/sigrefs` of any namespace — delegate or not, blocked or not — is, after the fetch, the stored
 commit or one that is `Ahead` of it. -/
-theorem sigrefs_monotone_aux (env : Env) (hw : EnvWf env) {L sp : Refdb} (hsp : SpWf env sp)
+theorem sigrefs_monotone_aux (env : Env) (hw : EnvWf env) {L sp : Refdb}
     {blocked delegates : List Key} (vs : SignedRefs) (hsorted : vs.Pairwise (fun a b => a.1 < b.1))
     (hvs : ∀ e ∈ vs, cachedLoad env L sp e.1 = .ok (some e.2) ∧
       verdictOf env L sp blocked delegates e.1 e.2.1 e.2.2 = .validated)
     (k : Key) (c : Oid) (hc : L.get (k, env.nSig) = some c) :
     ∃ c', (applyAll env L (finalUpdates env L sp delegates vs)).db.get (k, env.nSig) = some c' ∧
       (c' = c ∨ env.anc c c' = some .ahead) := by
-  have hne : env.nId ≠ env.nSig := Nat.ne_of_lt hw.id_lt_sig
+  have hne : env.nId ≠ env.nSig := hw.id_ne_sig
   by_cases hin : ∃ e ∈ vs, e.1 = k
   · obtain ⟨e, he, hek⟩ := hin
     obtain ⟨s, t, hst⟩ := List.append_of_mem he
@@ -1177,18 +1031,20 @@ theorem sigrefs_monotone_aux (env : Env) (hw : EnvWf env) {L sp : Refdb} (hsp : 
       have := (List.pairwise_cons.mp (List.pairwise_append.mp hsorted).2.1).1 e' he'
       exact Nat.ne_of_gt this
     obtain ⟨hload, hv⟩ := hvs (k0, tip, b) he
-    obtain ⟨_, _, hcc, hS⟩ := validated_facts hw hsp hload hv
+    obtain ⟨_, _, hcc, hsig, _⟩ := validated_facts hw hload hv
     -- the tips of `k0`: at most a `rad/id` update, the `rad/sigrefs` update, the data part
     have hblock : ∃ pre, (∀ u ∈ pre, u.ref ≠ (k0, env.nSig)) ∧
         blockOf env L sp delegates k0 b =
           pre ++ Update.direct k0 env.nSig tip (specialPolicy delegates k0) :: dataUpdatesOf env L k0 b := by
       unfold blockOf specialUpdatesOf
-      rcases hS with hS | ⟨x, hS, _⟩
-      · exact ⟨[], by simp, by rw [hS]; rfl⟩
-      · refine ⟨[Update.direct k0 env.nId x (specialPolicy delegates k0)], ?_, by rw [hS]; rfl⟩
-        intro u hu heq
-        simp at hu; subst hu
-        simp only [Update.ref] at heq; injection heq with _ h2; exact hne h2
+      refine ⟨specialUpdateOf delegates sp k0 env.nId, ?_, ?_⟩
+      · intro u hu
+        rw [specialUpdateOf_ref u hu]
+        intro heq; injection heq with _ h2; exact hne h2
+      · have : specialUpdateOf delegates sp k0 env.nSig =
+            [Update.direct k0 env.nSig tip (specialPolicy delegates k0)] := by
+          unfold specialUpdateOf; rw [hsig]
+        rw [this]; simp
     obtain ⟨pre, hpre, hb⟩ := hblock
     have hlist : finalUpdates env L sp delegates vs =
         (finalUpdates env L sp delegates s ++ pre) ++
